@@ -243,7 +243,8 @@ int xor_hd_fragments_needed(xor_code_t *code_desc, int *fragments_to_reconstruct
     /**
      * Add everything to missing_idxs (basically, give up on optimizing).
      */
-    missing_idxs = (int*)malloc(sizeof(int)*(code_desc->k + code_desc->m));
+    // one extra slot for the -1 terminator when every index is listed
+    missing_idxs = (int*)malloc(sizeof(int)*(code_desc->k + code_desc->m + 1));
     if (NULL == missing_idxs) {
       ret = -1;
       goto out;
